@@ -103,6 +103,17 @@ STMT_CTX = {
     "arrow_block": "match n:\n    0 =>\n        {S}\n    _ =>\n        pass",
     "match_option": "match opt:\n    case Some(v):\n        {S}\n    case None:\n        pass",
     "after_if": "if flag:\n    pass\n{S}",
+    # state carried from an earlier statement of the same body (each of these opens and closes some checker state)
+    "after_closure": "let fq = (aq) => aq + 1\nlet yq = fq(1)\n{S}",
+    "after_closure_as_argument": "let yq = xs.map((aq) => aq + 1)\n{S}",
+    "after_comprehension": "let cq = [vq * 2 for vq in xs if vq > 0]\n{S}",
+    "after_match": "match opt:\n    case Some(vq):\n        pass\n    case None:\n        pass\n{S}",
+    "after_for": "for iq in xs:\n    pass\n{S}",
+    "after_while": "while False:\n    pass\n{S}",
+    "after_fstring": 'let sq = f"{n} and {name}"\n{S}',
+    "after_if_expr": "let eq = 1 if flag else 2\n{S}",
+    "after_nested_let": "if flag:\n    let inner_q = 1\n{S}",
+    "after_call_and_method": "let tq = takes_int(n)\nmlist.append(tq)\n{S}",
 }
 
 # expression-position contexts for expression-level rule breakers ({E} is the offending expression incl. markers)
@@ -377,7 +388,7 @@ def run(tier):
         if len(sig) == 1:
             raise common.MachineryError(f"benign twin of {sig} is rejected: {why}")
     # a rule that holds in the function body but fails in every nested statement block is one failure class, not one per block
-    nested_blocks = {f"sctx:{c}" for c in STMT_CTX if c not in ("body", "after_if")}
+    nested_blocks = {f"sctx:{c}" for c in STMT_CTX if c != "body" and not c.startswith("after_")}
     failing_ctx = {}
     for (sig, bad, rng, good), k in zip(cases, verdicts):
         if k and k != "twin-rejected" and len(sig) == 2 and sig[1].startswith("sctx:"):
@@ -402,13 +413,15 @@ def run(tier):
             out.known_seen[key][0] = len(cs)
     ok_sigs = {c[0] for c, k in zip(cases, verdicts) if k is None}
     cli = cli_slice(out, [c for c, k in zip(cases, verdicts) if k is None][:12])
+    dep = dependency_part(out, skip=set(l1))
     cov = {
         "evaluations": len(cases) * 2,
         "distinct_nontrivial": len(ok_sigs),
         "rule": "rule x context: each rule-breaking construct (unknown name; use of a name outside the block / arm / comprehension / closure / function that binds it (15 scope rules); wrong type in annotated let / reassignment / return / argument / field assignment / constructor "
         "field / const / default; reassigning, compound-assigning or field-assigning an immutable binding incl. params and outer bindings; `?` on non-Result / incompatible error; "
         "non-exhaustive match over enum/Option/Result incl. foreign-constructor, duplicate and guard-only arms; constructor with missing/duplicate/unknown field; trait adoption "
-        "without method / @requires field) in every statement, function and expression context (level 2), nested two deep and after another construct (level 3); "
+        "without method / @requires field) in every statement, function and expression context (level 2), nested two deep and after another construct (level 3); every level-1 rule also with the offending function living in an imported module, judged on the real "
+        "CLI's exit status and the file:line it reports; "
         "non-trivial = rule x context pair whose benign twin is accepted and whose offending variant is rejected with an error inside the construct",
         "samples": [{"sig": list(c[0]), "construct": c[1].encode()[c[2][0] : c[2][1]].decode()} for c in common.pick_samples(cases)],
         "exhaustive": True,
@@ -417,6 +430,7 @@ def run(tier):
         "twin_rejected_contexts": sorted({"@".join(s) for s, _ in twins_rejected})[:40],
         "failing_by_class": {k: len(v) for k, v in by_key.items()},
         "cli_slice": cli,
+        **dep,
     }
     return out.finish(
         cov,
@@ -426,6 +440,70 @@ def run(tier):
             "a context whose benign twin is rejected is excluded (reported in twin_rejected_contexts)",
         ],
     )
+
+
+def dependency_part(out, incan=None, skip=()):
+    """The same level-1 rule breakers, living in an imported module: `incan --check main.incn` (the real CLI; the
+    in-process checker sees one file) must reject the project and point into the dependency file, inside the construct."""
+    import os
+    import re
+    import shutil
+    import subprocess
+    from multiprocessing.pool import ThreadPool
+
+    common.build(need_cli=True)
+    incan = incan or common.INCAN
+    root = os.path.join(common.BUILD, "c03dep")
+    shutil.rmtree(root, ignore_errors=True)
+    cases = []
+    for sig, bad, good in enumerate_cases(1):
+        if sig[0] in skip:
+            continue  # the rule does not hold in a single file either (reported there)
+        clean, rng = strip_markers(bad)
+        cases.append((sig, clean, rng, good))
+    env = {"PATH": os.environ.get("PATH", ""), "RUST_LOG": "off"}
+
+    def run_one(job):
+        k, text = job
+        d = os.path.join(root, f"p{k}")
+        os.makedirs(d, exist_ok=True)
+        # every top-level declaration of the library is public, the entry file imports one prelude function
+        lib = re.sub(r"^(def|model|class|enum|trait|type|const) ", r"pub \1 ", text, flags=re.M)
+        open(os.path.join(d, "rulelib.incn"), "w", encoding="utf-8").write(lib)
+        open(os.path.join(d, "main.incn"), "w", encoding="utf-8").write("from rulelib import takes_int\n\n\ndef main() -> None:\n    println(takes_int(1))\n")
+        p = subprocess.run([incan, "--no-banner", "--color", "never", "--check", "main.incn"], cwd=d, env=env, capture_output=True, text=True, timeout=60)
+        return p.returncode, re.sub(r"\x1b\[[0-9;]*m", "", p.stdout + p.stderr), lib
+
+    jobs = []
+    for i, (sig, bad, rng, good) in enumerate(cases):
+        jobs.append((2 * i, bad))
+        jobs.append((2 * i + 1, good))
+    with ThreadPool(common.NCPU) as pool:
+        res = pool.map(run_one, jobs)
+    n_ok = 0
+    unusable = []
+    for i, (sig, bad, rng, good) in enumerate(cases):
+        (brc, btext, blib), (grc, gtext, _) = res[2 * i], res[2 * i + 1]
+        if grc != 0:
+            unusable.append(sig[0])  # the benign twin is not accepted as a library on this tree: position unusable
+            continue
+        case = {"sig": list(sig) + ["in-dependency-module"], "src": blib, "main": "from rulelib import takes_int ...", "construct": bad.encode()[rng[0] : rng[1]].decode(), "cli_output": btext[-600:], "exit": brc}
+        if brc == 0:
+            out.fail(f"dep-module|{sig[0]}|accepted", {**case, "kind": "accepted"})
+            continue
+        if brc != 1:
+            out.fail(f"dep-module|{sig[0]}|abnormal-exit", {**case, "kind": f"exit {brc}"})
+            continue
+        # location: rulelib.incn:<line>:<col> of some error must fall on a line of the construct (pub prefixes do not add lines)
+        first = bad.encode()[: rng[0]].decode().count("\n") + 1
+        last = bad.encode()[: rng[1]].decode().count("\n") + 1
+        locs = [(f, int(l)) for f, l in re.findall(r"--> (\S+?):(\d+):\d+", btext)]
+        if not any(f.endswith("rulelib.incn") and first <= l <= last for f, l in locs):
+            out.fail(f"dep-module|{sig[0]}|rejected-but-not-located-in-the-dependency", {**case, "kind": "location", "locations": locs, "construct_lines": [first, last]})
+        else:
+            n_ok += 1
+    shutil.rmtree(root, ignore_errors=True)
+    return {"dependency_module_cases": len(cases), "dependency_module_located": n_ok, "dependency_module_unusable_twins": sorted(set(unusable))}
 
 
 def cli_slice(out, cases):
